@@ -606,6 +606,8 @@ def judge_c17(d):
 
 def judge_c19(d):
     q, impl, model = d["query"], d["impl"], d["model"]
+    if not q.startswith("c19 "):
+        return None  # queries of a borrowed suite: only its direct failures of the listed kinds count here
     io, mo = impl.split(","), model.split(",")
     ops = q.split()[2:]
     for k, (a, b) in enumerate(zip(io, mo)):
@@ -728,7 +730,8 @@ PROPS = {
              "for a health check (served, or dropped before any request); the verdict is compared with the model for peer 127.0.0.1 "
              "and the random actually used"
              " Also 3 (thorough 8) hellos per rule list spread over two TLS records (cut after 4, 20, 39 bytes): the endpoint's look at the first record cannot determine the random, the model is asked with the random unavailable - lists with a random pattern fail closed"
-             " Two rule lists look only at the end of the 32-byte random (a bit of byte 28; of byte 31, as an allow rule before a catch-all deny): on QUIC too the pattern is compared with the whole random",
+             " Two rule lists look only at the end of the 32-byte random (a bit of byte 28; of byte 31, as an allow rule before a catch-all deny): on QUIC too the pattern is compared with the whole random"
+             " Long hellos (one record of about 2, 6, 14 KiB, made long by the ALPN list) with chosen randoms: the random is in the first 43 bytes whatever follows",
         explanation="theorems first_match_wins, default_allow, fail_closed_without_random, prefix/mask semantics, "
                     "malformed_never_matches, mapped_peer_eq_v4_peer, deny_precedes_handshake about TT/Model/Rules.lean",
         trusted=["ipnet CIDR parsing and hex::decode (the harness passes parsed CIDRs to the model; hex decoding is modelled)",
@@ -840,7 +843,8 @@ PROPS = {
              "Proxy-Authorization tokens (right, longer password, empty password, other case of the user, trimmed password, none) as the "
              "registry model does"
              " Certificate files that cannot be loaded as what they claim to be - a CERTIFICATE block that is not base64 (alone with a good key, after a good certificate, before one), a key and no certificate, an empty file - in every host class, built and through a hosts file at start-up: all refused"
-             " ... and a file with a certificate and no key named as certificate and key file (a \"combined\" file without its key)",
+             " ... and a file with a certificate and no key named as certificate and key file (a \"combined\" file without its key)"
+             " A settings file that leaves every optional key out is written back as TOML and compared key by key (45 keys in 6 sections) with a built configuration",
         explanation="theorems decode_encode_basic, literal_verbatim, basic_plain_verbatim, load_ok_iff, empty_rejected, base64_injective, "
                     "accepted_iff_listed, accepted_token_identifies_pair, refuses_to_start_iff about TT/Model/Creds.lean",
         trusted=["toml_edit for everything outside single-line basic/literal strings (multi-line strings are outside the model)",
@@ -874,7 +878,8 @@ PROPS = {
              "(request, client FIN, client reset, half shutdowns, messages for unknown streams; about 110 per quick run, recorded by the door) "
              "is replayed by the Lean model TT.H3Streams, which must hold the same table after each"
              " The HTTP/1.1 head / payload suite of C08 (c08) runs here as well: payload that shares a segment with the CONNECT head is the start of the relayed stream. Directed pipe histories: one direction ends at once, the other delivers 3 or 6 chunks with gaps of T/2, 3T/4, T-1 into a sink that takes everything / one byte per write / is slow to become writable (the replay checks that the surviving direction is cancelled only at its own timer, `survivorDeadline`)"
-             " The HTTP/2 clients of the live tunnels send DATA frames without payload in the middle of their uploads",
+             " The HTTP/2 clients of the live tunnels send DATA frames without payload in the middle of their uploads"
+             " After an origin reset an HTTP/2 client must see its stream reset, not ended (END_STREAM would present the cut answer as complete)",
         explanation="theorems stream_invariant, delivered_is_prefix, credit_*, finished_complete, eof_only_when_drained, eof_after_writes, "
                     "restart_preserves, no_call_after_failure, duplex_* about TT/Model/Pipe.lean for every answer sequence; "
                     "table_invariant, read_finished_keeps_response_side, reset_removes_stream, halves_end_independently, "
@@ -1064,7 +1069,8 @@ PROPS = {
              "returns to zero; a dead-port flow does not stop the others"
              " One reply in five is 0, 1 or 2 bytes long (an empty datagram is a datagram: relayed, and the flow stays)"
              " One live server is on [::1] and every second client source label is IPv6 (direct forwarder; the SOCKS5 relay of the harness is IPv4-only)"
-             " One reply in twelve is 65000 or 65497 bytes long",
+             " One reply in twelve is 65000 or 65497 bytes long"
+             " A destination that restarts (its port closes, the client sends, it re-binds and sends to the flow): the error the flow's socket reports on receive ends the flow in the table, the socket and the gauge alike, and the client's next datagram starts a fresh flow that reaches the destination",
         explanation="theorems sent_to_own_destination, datagram_step_output, reply_labelled_with_own_flow, reply_delivered_on_live_flow, "
                     "tables_coupled, sockets_from_history, idle_flow_released, tick_expires_all_idle, fresh_flow_survives_advance, "
                     "tick_period, dns_flow_released_when_answered, dns_flow_kept_while_pending, dns_query_counts, "
@@ -1082,7 +1088,7 @@ PROPS = {
     ),
     "C16": dict(
         retry_on_failure=True,
-        suites=["c16", "c16h3", "c07socks"],
+        suites=["c16", "c16h3", "c07socks", "c07"],
         judge=judge_c16,
         level="proof",
         rule="17 directed and 120 (thorough 1200) random histories of 4-16 events {open an HTTP/1.1 or HTTP/2 session, client drops a "
@@ -1106,7 +1112,8 @@ PROPS = {
              "gauges must be back at zero within 7 s."
              " The SOCKS5 forwarder's multiplexer histories of C07 (suite c07socks: outbound_udp_sockets = one per association, "
              "released with the association's last flow) are run here too"
-             " Before the listener is queried, two connections that send nothing and one that sends half a request line are opened to it and kept: the scrape, the health check and the unknown path must still be answered (2 s)",
+             " Before the listener is queried, two connections that send nothing and one that sends half a request line are opened to it and kept: the scrape, the health check and the unknown path must still be answered (2 s)"
+             " The direct-forwarder flow suite of C07 (c07, with the restarting destination) runs here too",
         explanation="theorems cells_equal_objects, gauges_nonneg, all_clients_gone_sessions_udp_zero, all_clients_gone_everything_zero, "
                     "refused_connect_balanced, hanging_connect_released_by_timeout, counters_monotone, up_adds_exactly, "
                     "down_adds_exactly, no_relay_no_bytes, half_closed_tunnel_released_when_both_ended, icmp_counts_only_relayed, udp_bytes_follow_multiplexer, documented_series, documented_paths about "
@@ -1169,6 +1176,8 @@ PROPS = {
         retry_on_failure=True,
         endpoint_bin=True,
         suites=["c19", "c19live", "c19bin"],
+        # the HTTP/1.1 sessions of C08 that end while a chunk is still queued towards a slow client: "flush and close"
+        borrowed_suites={"c08": ["download_not_finished", "download_truncated", "spin_or_hang"]},
         judge=judge_c19,
         level="proof",
         exhaustive=True,
@@ -1185,7 +1194,8 @@ PROPS = {
              "completion() must return within 10 s, and a new session must not be served afterwards."
              " Binary (suite c19bin): the real endpoint process with an HTTP/3 session, an idle TLS connection and a silent TCP "
              "connection is sent SIGINT: it must exit with code 0 within 10 s and the HTTP/3 client must see its connection closed"
-             " HTTP/2 with a request in flight: a CONNECT whose outbound attempt takes 5 s is pending when the shutdown is submitted; a second request is handed to the client's connection 0..4 scheduler turns before, or 0..2 after, the submission (in one of these it is on the wire but unread when the wind-down starts), or not at all: the first request must be answered 200 when its attempt completes, the session must not end before, and completion() follows once the streams have ended",
+             " HTTP/2 with a request in flight: a CONNECT whose outbound attempt takes 5 s is pending when the shutdown is submitted; a second request is handed to the client's connection 0..4 scheduler turns before, or 0..2 after, the submission (in one of these it is on the wire but unread when the wind-down starts), or not at all: the first request must be answered 200 when its attempt completes, the session must not end before, and completion() follows once the streams have ended"
+             " Borrowed: the HTTP/1.1 sessions of C08 that end while a chunk is queued towards a slow client (flush and close: the client must get all of it)",
         explanation="theorems registered_before_submit_observes, waiting_participant_is_woken, no_submit_no_notification, "
                     "completion_iff_all_finished, completion_stable, late_registration_gets_no_guard about TT/Model/Shutdown.lean",
         trusted=["tokio broadcast (capacity 1, lag) and mpsc close semantics as modelled",
@@ -1242,7 +1252,8 @@ PROPS = {
              "and quiche's own log lines included in the search, plus one request per connection that the endpoint rejects while building it "
              "(secret-bearing headers under invalid field names)"
              " Reverse-proxy requests (path mask + Upgrade) on connections that authenticated by SNI (accepted / rejected credentials / none), without a Host header, with one, with an absolute target"
-             " Refused SNIs have the credentials label in front of one, two and three further labels (<creds>.unknownhost, <creds>.localhos, ...)",
+             " Refused SNIs have the credentials label in front of one, two and three further labels (<creds>.unknownhost, <creds>.localhos, ...)"
+             " Plain-HTTP requests whose origin is reached (GET / POST, forwarded with Authorization and Cookie) are among the targets; the log-site scan also treats a request in serialised form (serialized_request, request_bytes ...) as secret-bearing",
         explanation="theorems scrub_request_hides (non-interference), scrubbed_values_are_placeholders, scrub_keeps_other_headers, "
                     "scrub_adds_nothing, scrub_sni_hides_label, meta_debug_hides_creds about TT/Model/Scrub.lean; all_log_sites_clean over the "
                     "regenerated TT/Gen/LogSites.lean",
